@@ -21,6 +21,26 @@ func verifUDPAddr(s string) *net.UDPAddr {
 
 type verifNAT struct {
 	n *networkAddressTranslator
+	// real time is not part of the model: the harness measures how much of it has passed since the case
+	// began and at each mapping's last refresh, and takes it out of the remaining lifetimes it reports
+	start   time.Time
+	lastExp map[*mapping]time.Time
+	drift   map[*mapping]time.Duration
+}
+
+// note records, for every mapping whose expiry stamp was set by the NAT since the last look, how much
+// real time had passed then.
+func (v *verifNAT) note() {
+	if v.lastExp == nil {
+		v.lastExp, v.drift, v.start = map[*mapping]time.Time{}, map[*mapping]time.Duration{}, time.Now()
+	}
+	d := time.Since(v.start)
+	for _, m := range v.n.outboundMap {
+		if !v.lastExp[m].Equal(m.expires) {
+			v.lastExp[m] = m.expires
+			v.drift[m] = d
+		}
+	}
 }
 
 func verifNewNAT(cfg []string) *verifNAT {
@@ -60,6 +80,12 @@ func verifNewNAT(cfg []string) *verifNAT {
 
 // shift moves the clock forward by d as far as the NAT can tell: every expiry stamp moves back.
 func (v *verifNAT) shift(d time.Duration) {
+	v.note()
+	defer func() {
+		for m := range v.lastExp {
+			v.lastExp[m] = m.expires
+		}
+	}()
 	seen := map[*mapping]bool{}
 	for _, m := range v.n.outboundMap {
 		if !seen[m] {
@@ -85,10 +111,12 @@ func verifFloorDiv(a, b int64) int64 {
 
 func (v *verifNAT) state() string {
 	n := v.n
+	v.note()
 	if len(n.outboundMap) > 12 || len(n.inboundMap) > 12 {
 		return fmt.Sprintf("c=%d n=%d,%d", n.udpPortCounter, len(n.outboundMap), len(n.inboundMap))
 	}
 	now := time.Now()
+	sinceStart := time.Since(v.start)
 	var o, in []string
 	for _, m := range n.outboundMap {
 		var fl []string
@@ -104,7 +132,7 @@ func (v *verifNAT) state() string {
 			b = "*"
 		}
 		id := vh.Atoi(m.mapped[strings.LastIndex(m.mapped, ":")+1:]) - 0xC000
-		rem := verifFloorDiv(m.expires.Sub(now).Milliseconds()+250, 1000)
+		rem := verifFloorDiv((m.expires.Sub(now)+sinceStart-v.drift[m]).Milliseconds()+250, 1000)
 		o = append(o, fmt.Sprintf("%d/%s/%s/%s/%d", id, m.local, b, strings.Join(fl, ","), rem))
 	}
 	for k, m := range n.inboundMap {
@@ -185,8 +213,11 @@ var (
 
 func verifNATGen(r *vh.Rng, o *vh.Out, id string, long bool) {
 	var cfg string
-	lifetime := 30500
-	steps := []int{0, 0, 1000, 15000, 29000, 30000, 31000, 61000} // multiples of 1 s; lifetimes end in .5 s: no gap equals the lifetime
+	// Real time passes between the calls (microseconds, but seconds when the machine is overloaded), and
+	// the NAT reads the real clock: every step is a multiple of 10 s and every lifetime ends in 5 s, so no
+	// sum of steps comes closer than 5 s to a lifetime and the expiry decisions do not depend on the load.
+	lifetime := 35000
+	steps := []int{0, 0, 10000, 20000, 30000, 40000, 70000}
 	one := false
 	switch c := r.Intn(100); {
 	case c < 12:
@@ -209,12 +240,12 @@ func verifNATGen(r *vh.Rng, o *vh.Out, id string, long bool) {
 		cfg = fmt.Sprintf("one2one %s %s", j(ms), j(ls))
 	default:
 		if r.Chance(25) {
-			lifetime = r.Pick(10500, 2500, 60500)
-			steps = []int{0, 1000, lifetime - 500, lifetime + 500, 2 * lifetime, 2000}
+			lifetime = r.Pick(15000, 5000, 65000)
+			steps = []int{0, 10000, lifetime - 5000, lifetime + 5000, 2 * lifetime, 20000}
 		}
 		if r.Chance(10) {
-			lifetime = 0 // default 30 s: steps are multiples of 7 s, never exactly 30 s in sum
-			steps = []int{0, 7000, 14000, 28000, 35000}
+			lifetime = 0 // default 30 s: steps are multiples of 20 s, at least 10 s away from 30 s in any sum
+			steps = []int{0, 20000, 20000, 40000}
 		}
 		cfg = fmt.Sprintf("napt %d %d %d 27.1.1.1", r.Intn(3), r.Intn(3), lifetime)
 	}
